@@ -263,7 +263,7 @@ def e4(ctx: Ctx):
 # E7 DIM-ARITHMETIC
 
 
-@rule("E7", "DIM-ARITHMETIC: a source bound n is declared as n+1 elements, filled 0..n; undeclared arrays get bound 10; prologue has base 0", ["C03", "C10", "C09"], floor=5, default_props=["C03", "C10"])
+@rule("E7", "DIM-ARITHMETIC: a source bound n is declared as n+1 elements, filled 0..n; undeclared arrays get bound 10; prologue has base 0", ["C03", "C10", "C09", "C02"], floor=5, default_props=["C03", "C10"])
 def e7(ctx: Ctx):
     py = pyfacts(ctx)
     ci = py.cls("BasicDimStatement")
@@ -364,9 +364,124 @@ def e7(ctx: Ctx):
                         init_consts.append(repr(x.value))
     okz = sorted(set(init_consts)) == ["''", "0.0"]
     ctx.idiom("scalar-init-values", bool(init_consts), okz, "" if okz else f"pre-initialisation assigns {sorted(set(init_consts))}; Color BASIC starts strings as \"\" and numbers as 0 (a REAL 0.0 in BASIC09)", file="coco/b09/visitors.py", line=vi.lineno, props=["C03"])
-    lens = sorted({c.comparators[0].value for fn_ in scope for c in ast.walk(fn_) if isinstance(c, ast.Compare) and isinstance(c.left, ast.Call) and getattr(c.left.func, "id", "") == "len" and len(c.ops) == 1 and isinstance(c.ops[0], ast.LtE) and isinstance(c.comparators[0], ast.Constant)} | {a.value + 0 for fn_ in scope for a in ast.walk(fn_) if isinstance(a, ast.Constant) and isinstance(a.value, int) and not isinstance(a.value, bool) and a.value in (2, 3) and any(isinstance(p_, ast.Assign) and p_.value is not None and any(x is a for x in ast.walk(p_.value)) for p_ in ast.walk(fn_))})
-    okf = lens == [2, 3]
-    ctx.idiom("scalar-init-filter", bool(lens), okf, "" if okf else f"names are pre-initialised when their length is at most {lens}; user scalars are one or two characters (three with `$`), anything longer is a name the tool generated (arr_*, tmp_*, display, pid ...) and must not be claimed as a user variable", file="coco/b09/visitors.py", line=vi.lineno, props=["C03", "C09", "C10"])
+    # which names are pre-initialised: the filter predicate is evaluated on names (user scalars of every spelling, generated identifiers)
+    preds: List[Tuple[ast.AST, str]] = []
+    for fn_ in scope:
+        for c in ast.walk(fn_):
+            if isinstance(c, (ast.ListComp, ast.GeneratorExp, ast.SetComp)) and len(c.generators) == 1 and isinstance(c.generators[0].target, ast.Name) and c.generators[0].ifs and any(isinstance(x, ast.Call) and getattr(x.func, "id", "") in ("BasicAssignment", "BasicVar") for x in ast.walk(c.elt)):
+                g_ = c.generators[0]
+                preds.append((ast.BoolOp(op=ast.And(), values=list(g_.ifs)) if len(g_.ifs) > 1 else g_.ifs[0], g_.target.id))
+            if isinstance(c, ast.For) and isinstance(c.target, ast.Name) and any(isinstance(x, ast.Call) and getattr(x.func, "id", "") in ("BasicAssignment", "BasicVar") for x in ast.walk(c)):
+                for st_ in c.body:
+                    if isinstance(st_, ast.If) and c.target.id in names_loaded(st_.test):
+                        if st_.body and isinstance(st_.body[-1], ast.Continue) and not st_.orelse:
+                            preds.append((ast.UnaryOp(op=ast.Not(), operand=st_.test), c.target.id))
+                        elif any(isinstance(x, ast.Call) and getattr(x.func, "id", "") in ("BasicAssignment", "BasicVar") for x in ast.walk(st_)):
+                            preds.append((st_.test, c.target.id))
+    users = ["A", "Z", "AB", "A1", "C1", "Z9", "A$", "AB$", "A1$", "S1$"]
+    generated = ["arr_A", "arr_A$", "arr_AB", "tmp_1", "tmp_1$", "tmp_12", "pid", "erno", "errnum", "display", "play", "joy0x"]
+    mconsts_ = dict(py.mod("coco/b09/visitors.py").assigns)
+    if len(preds) != 1:
+        ctx.undecided("scalar-init-filter", f"{len(preds)} filters on the names to pre-initialise found", file="coco/b09/visitors.py", line=vi.lineno, props=["C03", "C09", "C10"])
+    else:
+        pe, pv = preds[0]
+        try:
+            missed = [n_ for n_ in users if not _str_pred(pe, {pv: n_}, mconsts_)]
+            claimed = [n_ for n_ in generated if _str_pred(pe, {pv: n_}, mconsts_)]
+        except _PredUnknown as ex:
+            ctx.undecided("scalar-init-filter", f"the filter `{unparse(pe)}` is not evaluable ({ex})", file="coco/b09/visitors.py", line=vi.lineno, props=["C03", "C09", "C10"])
+        else:
+            okf = not missed and not claimed
+            ctx.ob("scalar-init-filter", okf, "" if okf else f"names are pre-initialised when `{unparse(pe)}`: user scalars {missed} are left out (read before they have a value)" + (f"; generated identifiers {claimed} are claimed as user variables and assigned in the prologue" if claimed else ""), file="coco/b09/visitors.py", line=vi.lineno, props=["C03", "C09", "C10", "C02"])
+
+
+class _PredUnknown(Exception):
+    pass
+
+
+def _str_pred(e: ast.AST, env: Dict[str, str], consts: Dict[str, ast.AST]):
+    """Value of a predicate over strings: endswith / startswith / len / slices / comparisons / membership / str tests / regular expressions (decided with the checker's own regular-language engine)."""
+    from .relang import Lang
+
+    def ev(x):
+        if isinstance(x, ast.Constant):
+            return x.value
+        if isinstance(x, ast.Name):
+            if x.id in env:
+                return env[x.id]
+            raise _PredUnknown(f"name {x.id}")
+        if isinstance(x, ast.BoolOp):
+            r = None
+            for v in x.values:
+                r = ev(v)
+                if isinstance(x.op, ast.And) and not r:
+                    return r
+                if isinstance(x.op, ast.Or) and r:
+                    return r
+            return r
+        if isinstance(x, ast.UnaryOp) and isinstance(x.op, ast.Not):
+            return not ev(x.operand)
+        if isinstance(x, ast.Compare):
+            left = ev(x.left)
+            for op, c in zip(x.ops, x.comparators):
+                right = ev(c)
+                try:
+                    r = {ast.Eq: lambda a, b: a == b, ast.NotEq: lambda a, b: a != b, ast.Lt: lambda a, b: a < b, ast.LtE: lambda a, b: a <= b, ast.Gt: lambda a, b: a > b, ast.GtE: lambda a, b: a >= b, ast.In: lambda a, b: a in b, ast.NotIn: lambda a, b: a not in b, ast.Is: lambda a, b: a is b, ast.IsNot: lambda a, b: a is not b}[type(op)](left, right)
+                except (TypeError, KeyError) as ex:
+                    raise _PredUnknown(str(ex))
+                if not r:
+                    return False
+                left = right
+            return True
+        if isinstance(x, (ast.Tuple, ast.List, ast.Set)):
+            return [ev(y) for y in x.elts]
+        if isinstance(x, ast.Subscript):
+            base = ev(x.value)
+            try:
+                if isinstance(x.slice, ast.Slice):
+                    lo = ev(x.slice.lower) if x.slice.lower is not None else None
+                    hi = ev(x.slice.upper) if x.slice.upper is not None else None
+                    st = ev(x.slice.step) if x.slice.step is not None else None
+                    return base[lo:hi:st]
+                return base[ev(x.slice)]
+            except (TypeError, IndexError) as ex:
+                raise _PredUnknown(str(ex))
+        if isinstance(x, ast.Call):
+            f = x.func
+            if isinstance(f, ast.Name) and f.id in ("len", "bool") and len(x.args) == 1:
+                return {"len": len, "bool": bool}[f.id](ev(x.args[0]))
+            if isinstance(f, ast.Attribute) and f.attr in ("endswith", "startswith", "isalpha", "isdigit", "isupper", "islower", "isalnum", "upper", "lower", "rstrip", "lstrip", "strip") and not x.keywords:
+                recv = ev(f.value)
+                if not isinstance(recv, str):
+                    raise _PredUnknown("method on a non-string")
+                args = [ev(a) for a in x.args]
+                if f.attr in ("endswith", "startswith") and args and isinstance(args[0], list):
+                    args[0] = tuple(args[0])
+                return getattr(recv, f.attr)(*args)
+            if isinstance(f, ast.Attribute) and f.attr in ("fullmatch", "match", "search") and x.args:
+                # re.fullmatch(pattern, s) / COMPILED.fullmatch(s)
+                pat, subj, flags = None, None, 0
+                if isinstance(f.value, ast.Name) and f.value.id == "re" and len(x.args) >= 2:
+                    p0 = x.args[0]
+                    p0 = consts.get(p0.id, p0) if isinstance(p0, ast.Name) else p0
+                    pat, subj = (p0.value if isinstance(p0, ast.Constant) else None), ev(x.args[1])
+                elif isinstance(f.value, ast.Name) and f.value.id in consts:
+                    c0 = consts[f.value.id]
+                    if isinstance(c0, ast.Call) and getattr(c0.func, "attr", "") == "compile" and c0.args and isinstance(c0.args[0], ast.Constant):
+                        pat, subj = c0.args[0].value, ev(x.args[0])
+                if pat is None or not isinstance(subj, str):
+                    raise _PredUnknown("regular expression not constant")
+                try:
+                    if f.attr == "fullmatch":
+                        return Lang.from_regex(pat).accepts(subj)
+                    if f.attr == "match":
+                        return Lang.from_regex(f"(?:{pat})(?s:.*)").accepts(subj)
+                    return Lang.from_regex(f"(?s:.*)(?:{pat})(?s:.*)").accepts(subj)
+                except Exception as ex:
+                    raise _PredUnknown(f"pattern {pat!r}: {ex}")
+        raise _PredUnknown(f"expression `{unparse(x)[:40]}`")
+
+    return ev(e)
 
 
 # ---------------------------------------------------------------------------
